@@ -59,7 +59,7 @@ def oracle(ops, resp):
 def run(ctx, br):
     rng = ctx.rng
     quick = ctx.tier == "quick"
-    nseq, maxlen = (250, 30) if quick else (5000, 60)
+    nseq, maxlen = (120, 26) if quick else (5000, 60)
     seqs = [cc.gen_seq(rng, rng.randrange(3, maxlen)) for _ in range(nseq)]
     # reserved-name-free sequences too (the hypothesis of c17_opids_distinct)
     seqs += [cc.gen_seq(rng, rng.randrange(3, maxlen), reserved_p=0.0) for _ in range(nseq // 5)]
